@@ -104,7 +104,7 @@ class C24(Spec):
                    'parallel_deriv_color needs MPI and is out of scope; multi-seed soundness is the union lemma']
 
     def gen(self, tier, rng):
-        n = 120 if tier == 'quick' else 1500
+        n = 100 if tier == 'quick' else 700
         cases = []
         for k in range(n):
             cpl = (k % 5 == 4)
@@ -123,6 +123,21 @@ class C24(Spec):
                                 sorted(rng.sample(range(nd), rng.randrange(1, nd + 1)))])
             cases.append({'spec': spec, 'cfg': cfg, 'history': history,
                           'kind': spec_kind(spec) + ':' + cfg['lin'] + (':approx_totals' if cfg.get('approx') else '')})
+        # matrix-free components whose inputs are partly irrelevant: one design variable only, every component
+        # matrix-free, iterative top-level solver (the reverse products of such components must not reach the
+        # skipped systems)
+        for k in range(24 if tier == 'quick' else 160):
+            if k % 2 == 0:
+                spec = sg.gen_leak_spec(rng)
+            else:
+                spec = sg.gen_valid_spec(rng, ncomp=rng.randrange(4, 8), allow_units=False)
+                spec['desvars'] = spec['desvars'][:1]
+                for c in spec['comps']:
+                    c['mf'] = c['kind'] != 'ivc'
+            cfg = {'lin': rng.choice(['krylov', 'krylov', 'krylov_sub', 'lbgs']), 'jac': None, 'nl': 'nlbgs', 'mf': True}
+            nr = len(spec['responses'])
+            history = [[sorted(rng.sample(range(nr), rng.randrange(1, nr + 1))), [0]]] if rng.random() < 0.5 else []
+            cases.append({'spec': spec, 'cfg': cfg, 'history': history, 'kind': 'matrix-free-single-desvar:' + cfg['lin']})
         return cases
 
     def search_gen(self, tier, rng):
